@@ -53,6 +53,7 @@ func c13one(r *core.R, s string) {
 }
 
 func runC13(r *core.R) {
+	defer c13EndToEnd(r)
 	// (1) every scalar value, alone and embedded
 	core.ParFor(0x110000/0x400, func(blk int) {
 		var ev, nt int64
